@@ -107,6 +107,21 @@ pub fn release(label: &str) -> bool {
         None => false,
     }
 }
+/// release the `n`-th oldest waiter at the gate (0 = oldest); returns false if there is no such waiter
+pub fn release_nth(label: &str, n: usize) -> bool {
+    let slot = with(|r| r.waiting.get_mut(label).and_then(|q| q.remove(n))).flatten();
+    match slot {
+        Some(s) => {
+            let mut g = s.lock().unwrap();
+            g.open = true;
+            if let Some(w) = g.waker.take() {
+                w.wake();
+            }
+            true
+        }
+        None => false,
+    }
+}
 pub fn release_all(label: &str) -> usize {
     let mut n = 0;
     while release(label) {
